@@ -751,28 +751,24 @@ replay_proof! {
 // its own entries compare below that boundary: after the restart they are
 // evictable although they live in the open chunk, and once evicted (small
 // cache) they cannot be read ("Chunk not found"). Two chunks:
-// [State(empty), Append a0, Append a1] [State(last = a1), TruncateAfter(a0), Append b1] with b1 < a1.
+// [State(empty), Append a1] [State(last = a1), TruncateAfter(None), Append b1] with b1 < a1.
 // @harness name=c02_known_lower_term_boundary prop=C02 tier=quick timeout=1500 fs=512 kind=known
 replay_proof! {
     unwind = 10, crc = off,
     fn c02_known_lower_term_boundary() {
+        // smallest instance: [State(empty), Append a1] [State(last = a1), TruncateAfter(None), Append b1]
         let mut m = empty_model();
         let mut im = Img::new(0, 0);
         im.state(None, None, None, None, None);
-        let a0 = any_id();
-        let p0 = P::new(1, kani::any());
-        im.append(a0, p0);
-        m.do_append(a0, p0);
         let a1 = any_id();
-        kani::assume(m.append_ok(a1));
         let p1 = P::new(0, 0);
         im.append(a1, p1);
         m.do_append(a1, p1);
         let end0 = im.commit_len();
         let mut im = Img::new(1, end0 as u64);
         im.state(None, Some(a1), None, None, None);
-        im.truncate_after(Some(a0));
-        m.do_truncate(Some(a0));
+        im.truncate_after(None);
+        m.do_truncate(None);
         let b1 = any_id();
         kani::assume(m.append_ok(b1));
         let q1 = P::new(1, kani::any());
@@ -781,7 +777,6 @@ replay_proof! {
         im.commit_len();
         match open(replay_config(None)) {
             Some(rl) => {
-                assert_matches(&rl, &m);
                 kani::cover!(b1 < a1, "re-appended entry has a lower id than the last entry of the closed chunk");
                 assert_open_pinned(&rl);
                 core::mem::forget(rl);
